@@ -258,6 +258,13 @@ pub fn redeclarations(b: &Base) -> Vec<(String, Value)> {
             add(format!("fri_step[{}]={}-all-following", i, tag), make_felt(sum + last, lc, &st, last, nq, pow, nf, b.cols, None));
         }
     }
+    // layer count re-declared with every vector following: 16 layers (steps of 1) and a single layer
+    {
+        let mut st = vec![Felt::ZERO];
+        st.extend(std::iter::repeat(Felt::ONE).take(15));
+        add("n_layers=16-all-following".to_string(), make_felt(fu(15) + last, lc, &st, last, nq, pow, nf, b.cols, None));
+        add("n_layers=1-all-following".to_string(), make_felt(last, lc, &[Felt::ZERO], last, nq, pow, nf, b.cols, None));
+    }
     // query count / pow at the bounds
     for (tag, v) in [("0", Felt::ZERO), ("1", Felt::ONE), ("48", fu(48)), ("49", fu(49)), ("2^40", fu(1 << 40)), ("p-1", p_minus(1))] {
         add(format!("n_queries={}", tag), make(lt, lc, &steps, last, v, pow, nf, b.cols, None));
